@@ -125,8 +125,9 @@ def lattice(j, cases):
         elif k == "twist":
             S = np.array(c["s"], dtype=float)
             nrm = math.sqrt(a["n2"])
-            for s in (1e-6, 1.0, 1e6):
-                feat = "by=%s;norm=%g" % (a["by"], s)
+            for s, stag in ((1e-6, "1e-06"), (1.0, "1"), (1e6, "1e+06"), (1.0 / math.sqrt(a["tot2"]), "euclidean-norm-1"),
+                            (1.0 / nrm, "already-unit")):
+                feat = "by=%s;norm=%s" % (a["by"], stag)
                 for site, fn in {"base.unittwist": lambda x: b.unittwist(x), "base.unittwist_norm": lambda x: b.unittwist_norm(x)[0],
                                  "Twist3.unit": lambda x: Twist3(x).unit.S}.items():
                     cid = (site, feat)
